@@ -180,6 +180,9 @@ def c18(out_tree):
             oind = len(src[ols : opener.start_byte]) - len(src[ols : opener.start_byte].lstrip(b" "))
             cind = n.start_byte - ls
             first_on_line = src[ols : opener.start_byte].strip(b" ") == b""
+            # `or {` / `or [` / `or (` at the start of a line: the default of a select belongs to that line
+            if not first_on_line and src[ols : opener.start_byte].strip(b" ") == b"or":
+                first_on_line = True
             if first_on_line and oind != cind and ols != ls:
                 seen("closer-indent", {"closer": n.type, "parent": n.parent.type, "opener_line_indent": oind, "closer_indent": cind})
     return fails
